@@ -71,16 +71,25 @@ Fixpoint rd_uint (cs : word) : option uint :=
               | _, _ => None
               end
   end.
-(* the whole word must be [+-]digits+ (operator>> would also accept a numeric prefix; malformed files are C09) *)
+(* operator>> into an int: optional sign and the longest run of digits (at least one); what follows in the word is
+   ignored ("12.5" reads 12), a word without a leading number is an error *)
+Fixpoint span_digits (w : word) : word :=
+  match w with
+  | c :: r => match digit_of c with Some _ => c :: span_digits r | None => [] end
+  | [] => []
+  end.
+Definition parse_digits (w : word) : option Z :=
+  match span_digits w with
+  | [] => None
+  | ds => option_map Z.of_uint (rd_uint ds)
+  end.
 Definition parse_Z (w : word) : option Z :=
   match w with
   | [] => None
   | c :: r =>
-      if Ascii.eqb c "-" then
-        match r with [] => None | _ => option_map (fun u => Z.opp (Z.of_uint u)) (rd_uint r) end
-      else if Ascii.eqb c "+" then
-        match r with [] => None | _ => option_map Z.of_uint (rd_uint r) end
-      else option_map Z.of_uint (rd_uint w)
+      if Ascii.eqb c "-" then option_map Z.opp (parse_digits r)
+      else if Ascii.eqb c "+" then parse_digits r
+      else parse_digits w
   end.
 
 (* ------------------------------------------------------------------ doubles: exact rationals or NA *)
